@@ -46,7 +46,12 @@ func (ri *RouterIdentity) Validate() error {
 	if ri.KeysAndCert == nil {
 		return oops.Errorf("router identity KeysAndCert is nil")
 	}
-	return ri.KeysAndCert.Validate()
+	if err := ri.KeysAndCert.Validate(); err != nil {
+		return err
+	}
+	// A RouterIdentity assembled by the caller (struct literal) has not passed the key-type
+	// policy that the constructors and ReadRouterIdentity apply.
+	return validateRouterIdentityKeyTypes(ri.KeysAndCert)
 }
 
 // IsValid returns true if the RouterIdentity is properly initialized.
